@@ -45,7 +45,7 @@ def diff(a, b):
 
 
 class Pool:
-    """steps: ["new", spec, layout] | ["op", idx, name, args] | ["reuse", idx, name] | ["bad", idx, kind]"""
+    """steps: ["new", spec, layout] | ["op", idx, name, args] | ["reuse", idx, name] | ["bad", idx, kind] | ["join", idx, k, metas, drop]"""
 
     MAX = 10
 
@@ -171,6 +171,31 @@ class Pool:
         self.st.nt()
         self.st.label("op_reuse_arg")
 
+    def s_join(self, idx, k, metas, drop_start):
+        """concatenate pieces that carry DIFFERENT metadata dicts (and optionally lack a start time); the pieces are inputs like any other"""
+        import pulsarbat as pb
+
+        z = self.pick(idx)
+        cut = k % (len(z) + 1)
+        M = [{"first": 1}, {"later": 2, "first": 9}, None, {}, {"n": {"k": [1, 2]}, "later": 0}]
+        pieces = [type(q).like(q, meta=copy.deepcopy(M[m % len(M)])) for q, m in zip([z[:cut], z[cut:]], metas)]
+        if drop_start:
+            pieces[1].start_time = None
+        snaps = [snap_signal(q) for q in pieces]
+        try:
+            r = pb.concatenate(pieces)
+            self.add(r, "concatenate(pieces with own meta)")
+            self.st.label("op_join")
+        except Exception:
+            self.st.label("raised_join")
+        for i, (q, s0) in enumerate(zip(pieces, snaps)):
+            bad = diff(s0, snap_signal(q))
+            check(not bad, "concatenate of pieces with metas {}: piece #{} was modified: {} changed", [M[m % len(M)] for m in metas], i, bad)
+        for q in pieces:
+            self.add(q, "piece")
+        if M[metas[0] % len(M)] != M[metas[1] % len(M)]:
+            self.st.nt()
+
     def s_bad(self, idx, kind):
         import pulsarbat as pb
 
@@ -231,6 +256,10 @@ class PoolMachine(HistoryMachine):
     @rule(idx=st.integers(0, 20))
     def reuse(self, idx):
         self.do(["reuse", idx])
+
+    @rule(idx=st.integers(0, 20), k=st.integers(0, 30), metas=st.tuples(st.integers(0, 4), st.integers(0, 4)), drop=st.booleans())
+    def join(self, idx, k, metas, drop):
+        self.do(["join", idx, k, list(metas), drop])
 
     @rule(idx=st.integers(0, 20), kind=st.sampled_from(["snippet_past_end", "snippet_negative", "concat_gap", "concat_types", "tshift_dims",
                                                        "fshift_nonbaseband", "neg_step", "bad_rate", "cdd_nonbaseband", "matmul", "reduce"]))
